@@ -66,6 +66,27 @@ def is_negative(e):
     return False
 
 
+def _neg_score(e):
+    k = 0
+    for n in ast.walk(e):
+        if isinstance(n, ast.UnaryOp) and isinstance(n.op, ast.Not):
+            k += 1
+        elif isinstance(n, ast.Compare):
+            k += sum(1 for o in n.ops if isinstance(o, NEGATIVE_OPS))
+    return k
+
+
+def prefer_negated(test):
+    """Is the negation of `test` the canonical orientation of a two-armed conditional?  The choice depends only on the
+    pair {test, not test}: fewer negations first, then the shorter / smaller text."""
+    other = neg(test)
+    a, b = _neg_score(test), _neg_score(other)
+    if a != b:
+        return b < a
+    ta, tb = ast.unparse(test), ast.unparse(other)
+    return (len(tb), tb) < (len(ta), ta)
+
+
 def _const_key(c):
     return (type(c.value).__name__, repr(c.value))
 
@@ -105,7 +126,7 @@ class Expr(ast.NodeTransformer):
 
     def visit_IfExp(self, node):
         self.generic_visit(node)
-        if on("E5") and is_negative(node.test):
+        if on("E5") and prefer_negated(node.test):
             node.test, node.body, node.orelse = neg(node.test), node.orelse, node.body
         return node
 
@@ -288,7 +309,7 @@ class Canon:
                 st.test = st.test.operand.operand
             st.body = self.block(st.body, outer)
             st.orelse = self.block(st.orelse, outer) if st.orelse else []
-            if on("S3") and st.orelse and is_negative(st.test):
+            if on("S3") and st.orelse and prefer_negated(st.test):
                 st.test, st.body, st.orelse = neg(st.test), st.orelse, st.body
             return [st]
         for fld in ("body", "orelse", "finalbody"):
